@@ -179,6 +179,45 @@ func init() {
 			for _, s := range gen.ChildAsField() {
 				do(s)
 			}
+			// a second, focused transition system: short-circuit operators whose skipped operand assigns, reads right behind
+			// assignments, a variable that shadows a field it was initialised from - at top level, in a block, and in a block
+			// behind K live locals (K around 24 / 32 / 64 / 256: whatever the compiler starts doing once there are many)
+			stm := []string{"var x = 7", "var y = 0", "var x = x + 1", "eval x or (y = 1)", "eval x and (y = 2)", "eval (y = 3) or x", "eval y = x", "eval x = y",
+				"print x", "print y", "eval x = 4", "print x + y", "eval y = (x = 5) and y", "eval x or (x = 6)"}
+			var seqs []string
+			var rec func(prefix string, n int)
+			rec = func(prefix string, n int) {
+				if prefix != "" {
+					seqs = append(seqs, prefix)
+				}
+				if n == 0 {
+					return
+				}
+				for _, st := range stm {
+					rec(prefix+st+"\n", n-1)
+				}
+			}
+			rec("", 3)
+			locals := func(k int) string {
+				var b strings.Builder
+				for i := 0; i < k; i++ {
+					fmt.Fprintf(&b, "var p%d = %d\n", i, i)
+				}
+				return b.String()
+			}
+			for _, sq := range seqs {
+				do(sq)
+				do("def a {\nx = 1\n" + sq + "}\n")
+				for _, k := range []int{22, 23, 24, 25, 33} {
+					do("def a {\nx = 1\ny = 2\n" + locals(k) + sq + "print p0 + p" + fmt.Sprint(k-1) + "\n}\n")
+				}
+				if strings.Count(sq, "\n") <= 2 {
+					for _, k := range []int{15, 16, 17, 31, 32, 63, 64, 65, 100, 127, 128, 129, 255, 256, 257, 500} {
+						do("def a {\nx = 1\n" + locals(k) + sq + "}\n")
+						do(locals(k) + "def a {\ny = 2\n" + sq + "}\n")
+					}
+				}
+			}
 			// shadowing to depth 8 and name reuse between variables and fields
 			for d := 1; d <= 8; d++ {
 				src := "var x = 0; "
